@@ -121,7 +121,9 @@ def make_recv(client, history, upgrade):
                 v = pre.s(sid)
                 if v.st in (OPEN, HCL, RES_REMOTE) and v.requester and not v.hr:
                     expect_event = True
-                    exp_origin = b'example.com'
+                    # the :authority of the request of THAT stream (a promised request
+                    # names its own authority)
+                    exp_origin = b'cdn.example.net' if v.pushed else b'example.com'
                     if upgrade and sid == 1:
                         exp_origin = None      # the request travelled over HTTP/1.1
         check((len(av) == 1) == expect_event, 'altsvc-event-%s' % (
